@@ -689,6 +689,143 @@ func run(args []string) error {
 		}
 	}
 
+	// ---- history: consecutive calls with RELATED inputs, and each call repeated after a different one.  The model is
+	//      pure, so every call is compared with the model's answer for that call alone (caches / memo tables keyed
+	//      on an ambiguous encoding of the arguments show up as a wrong answer for the second call).
+	{
+		seedCall := func(m, p string) {
+			var sd []byte
+			var err error
+			obs := ""
+			if Guard(func() { sd, err = bip39.NewSeed(m, p) }) {
+				obs = "panic"
+			} else if err != nil {
+				obs = err39(err)
+			} else {
+				obs = hx(sd)
+			}
+			emit("hist", "seed", []string{hs(m), hs(p)}, obs, map[string]interface{}{"kind": "history", "mnemonic": m, "passphrase_hex": hs(p)})
+		}
+		// a valid mnemonic whose first `short` words are a valid mnemonic too
+		nested := func(long, short int) (string, string, string) {
+			for {
+				m, _ := bip39.NewMnemonic(g.r.Bytes(long / 3 * 4))
+				ws := strings.Split(m, " ")
+				pre := strings.Join(ws[:short], " ")
+				if bip39.ValidateMnemonic(pre) == nil {
+					return m, pre, " " + strings.Join(ws[short:], " ")
+				}
+			}
+		}
+		rounds := 2 + n/60
+		for j := 0; j < rounds; j++ {
+			for _, pair := range [][2]int{{15, 12}, {18, 15}, {18, 12}, {24, 21}, {21, 18}} {
+				if pair[0]-pair[1] > 3 && j%2 == 1 {
+					continue // 2^-9 search, every other round
+				}
+				long, pre, rest := nested(pair[0], pair[1])
+				// the same concatenation split differently between mnemonic and passphrase, both orders, then repeated
+				seedCall(long, "")
+				seedCall(pre, rest)
+				seedCall(long, "")
+				seedCall(pre, rest)
+				seedCall(long, rest)
+				seedCall(pre, "")
+				seedCall(pre, rest[1:])
+				seedCall(pre, rest)
+			}
+			// same mnemonic, different passphrases, and back
+			m, _ := bip39.NewMnemonic(g.entropy())
+			for _, p := range []string{"", "a", "", "b", "a", "a ", " a", "a", "mnemonic", "", m, ""} {
+				seedCall(m, p)
+			}
+			m2, _ := bip39.NewMnemonic(g.entropy())
+			seedCall(m2, "a")
+			seedCall(m, "a")
+			seedCall(m2, "a")
+			// mnemonic round trips interleaved
+			for _, mm := range []string{m, m2, m, m2} {
+				e, err := bip39.EntropyFromMnemonic(mm)
+				obs := hx(e)
+				if err != nil {
+					obs = err39(err)
+				}
+				emit("hist", "entmn", []string{hs(mm)}, obs, map[string]interface{}{"kind": "history"})
+				if err == nil {
+					back, err2 := bip39.NewMnemonic(e)
+					obs = hs(back)
+					if err2 != nil {
+						obs = err39(err2)
+					}
+					emit("hist", "newmn", []string{hx(e)}, obs, map[string]interface{}{"kind": "history"})
+				}
+			}
+			// bip32: same path on different seeds, same seed with different paths, hardened / non-hardened twins, repeats
+			s1, s2 := g.r.Bytes(32), g.r.Bytes(32)
+			idx := g.index() & 0x7fffffff
+			paths := []string{"m", fmt.Sprintf("m/%d", idx), fmt.Sprintf("m/%d'", idx), fmt.Sprintf("m/%d", idx), "m/0/1", "m/0'/1", "m/0/1'", "m/0/1", "m/01", "m/0/1"}
+			for pi, p := range paths {
+				for _, sd := range [][]byte{s1, s2, s1} {
+					if pi%3 == 2 && hx(sd) == hx(s2) {
+						continue
+					}
+					k, err := bip32.NewPrivateKeyFromPath(sd, p)
+					obs := ""
+					if err != nil {
+						obs = err32(err)
+					} else {
+						obs = hx(k.Serialize())
+					}
+					emit("hist", "frompath", []string{hx(sd), hs(p)}, obs, map[string]interface{}{"kind": "history", "path": p})
+				}
+			}
+			ka, kb := g.xprv(), g.xprv()
+			for _, step := range []struct {
+				k *bip32.PrivateKey
+				i uint32
+			}{{ka, idx}, {kb, idx}, {ka, idx}, {ka, idx | 0x80000000}, {ka, idx}, {kb, idx | 0x80000000}, {ka, idx + 1}, {ka, idx}} {
+				c, err := step.k.NewPrivateChildKey(step.i)
+				obs := ""
+				if err != nil {
+					obs = err32(err)
+				} else {
+					obs = hx(c.Serialize())
+				}
+				emit("hist", "ckdpriv", []string{hx(step.k.Serialize()), fmt.Sprintf("%x", step.i)}, obs, map[string]interface{}{"kind": "history", "index": step.i})
+				if step.i < 0x80000000 {
+					pc, err := step.k.PublicKey().NewPublicChildKey(step.i)
+					obs = ""
+					if err != nil {
+						obs = err32(err)
+					} else {
+						obs = hx(pc.Serialize())
+					}
+					emit("hist", "ckdpub", []string{hx(step.k.PublicKey().Serialize()), fmt.Sprintf("%x", step.i)}, obs, map[string]interface{}{"kind": "history", "index": step.i})
+				}
+			}
+			// bip44 coin / account twins
+			for _, ca := range [][2]uint32{{8000, 0}, {8000, 1}, {8000, 0}, {0, 0}, {8000, 0}} {
+				obs := ""
+				c, err := bip44.NewCoin(s1, bip44.CoinType(ca[0]))
+				if err != nil {
+					obs = "coin:" + err32(err)
+				} else if a, err := c.Account(ca[1]); err != nil {
+					obs = hx(c.Serialize()) + " account:" + err32(err)
+				} else {
+					part := func(k *bip32.PrivateKey, err error) string {
+						if err != nil {
+							return err32(err)
+						}
+						return hx(k.Serialize())
+					}
+					obs = strings.Join([]string{hx(c.Serialize()), hx(a.Serialize()), part(a.External()), part(a.Change())}, " ")
+				}
+				emit("hist", "bip44", []string{hx(s1), fmt.Sprintf("%x", ca[0]), fmt.Sprintf("%x", ca[1])}, obs, map[string]interface{}{"kind": "history"})
+			}
+		}
+		hist.Add(fmt.Sprintf("history=%d", len(caseJSON["hist"])))
+	}
+
 	// ---- deterministic sweep over code-point classes of the passphrase (and of an invalid mnemonic):
 	//      the expected seed is PBKDF2 over the NFKD forms, computed by Python (unicodedata + hashlib)
 	{
